@@ -249,6 +249,8 @@ def moved_depot_probe(ctx):
 
 def run(ctx):
     ctx.prove()
+    from props import genreg
+    genreg.steps(ctx, ("seqenum",))      # fixing rules / enumeration regenerated from the source (C18_seq_gen)
     rng = ctx.rng
     n_cases = 220 if ctx.quick else 2500
     limit_n = 14 if ctx.quick else 16
